@@ -806,6 +806,10 @@ func (g *fsGen) op() string {
 		return fmt.Sprintf("RF %s %s", vs, tok(g.path()))
 	case k < 94:
 		if g.nviews < 4 && !g.single {
+			// one view in five is made of the current directory itself ("." must give a NEW view, not the receiver)
+			if r.chance(1, 5) {
+				return fmt.Sprintf("SB %s %s", vs, tok(r.pick([]string{".", ".", "./", ""})))
+			}
 			return fmt.Sprintf("SB %s %s", vs, tok(g.path()))
 		}
 		return fmt.Sprintf("ST %s %s", vs, tok(g.path()))
